@@ -4,74 +4,50 @@ import Proofs.ReaderPrint
 C17 — errors and @print output are attributed to the right file and line.
 
 Statements about `Reader.readText` / `Reader.readTargets` (lean/Model/Reader.lean): the reader with the line counter of
-`_parser.py`, the rule of `Error.set_error_location_if_unknown` ("only if unknown, innermost first") as applied by
-`_parser.parse` and `DSDLDefinition.read`, and the print handler bound to a target path.
+`_parser.py` (line breaks inside string literals included), the line of the attribute statement that awaits its doc
+comment (`_last_attribute_line_number`), the rule "a line is attached only to an error that names no file yet" of
+`_parser.parse`, `Error.set_error_location_if_unknown`, `DSDLDefinition.read`, and the print handler bound to a target
+path.
 
-Three parts of the property are false for the real code and therefore for the model that mirrors it; each is kept as a
-`…_statement` with a decided counterexample, and the part that holds is proved as `…_partial`:
-  * lazily committed attributes (bad name, bad constant, field after `_offset_` in a union) report the line of the commit;
-  * a finalize-time error of a referenced definition gets the line of the referring statement;
-  * a `@print` in a referenced definition is delivered with the referrer's path, and twice if the definition was read
-    as a target before.
+One part of the property is false for the real code and therefore for the model that mirrors it: a `@print` in a
+referenced definition is delivered with the referrer's path, and twice if the definition was read as a target before.
+It is kept as `C17.print_once_statement` with a decided counterexample; the part that holds is proved as `…_partial`.
 -/
 open Reader
 
-/-- Full statement (false): a reported line of the own file is a line that holds a statement. -/
-def C17.line_statement : Prop :=
-  ∀ (c : Ctx) (ls : List Line) (w w' : W) (e : Err), readText c ls w = .error (e, w') → e.file = c.self →
-    ∀ n, e.line = some n → ∃ l, ls[n - 1]? = some l ∧ (l.stmt.isSome ∨ l.fault = some .syn)
+/-- A failed read reports
+      * the untouched error of a referenced definition (its path, its line), or
+      * the own path and no line (an error found when the definition is finalized), or
+      * the own path and the number of a line that holds a statement (or does not match the grammar) — never a blank
+        line, a comment line or a line number that does not exist.
+    For every document, every line shape, every continuation of statements over several physical lines. -/
+theorem C17.line (c : Ctx) (ls : List Line) (w w' : W) (e : Err) (h : readText c ls w = .error (e, w')) :
+    (∃ l ∈ ls, DepErr c l e) ∨ e = ⟨c.self, none⟩ ∨ ∃ n, e = ⟨c.self, some n⟩ ∧ n ∈ culpritLineNos 1 ls :=
+  readText_err h
 
-/-- Proved part: in a text without lazily failing attributes (no constructor fault of a queued attribute, no `_offset_`),
-    a failed read reports
-      * no line and the own path (a finalize-time error), or
-      * the own path and the number of the first line whose visit raises — a line that holds a statement (or the first
-        line that does not match the grammar); all earlier lines passed; or
-      * the located error of a referenced definition of that line (`DepErr`: path kept, known line kept).
-    Blank lines, comments, line endings and whatever follows the statement have no influence. -/
-theorem C17.line_partial (c : Ctx) (ls : List Line) (w w' : W) (e : Err)
-    (hn : ∀ l ∈ ls, l.noLazy) (h : readText c ls w = .error (e, w')) :
-    e = ⟨c.self, none⟩ ∨
-    ∃ ls₁ l ls₂, ls = ls₁ ++ l :: ls₂ ∧ (l.stmt.isSome ∨ l.fault = some .syn) ∧
-      (e = ⟨c.self, some (ls₁.length + 1)⟩ ∨ DepErr c (ls₁.length + 1) l e) := by
-  unfold readText at h
-  split at h
-  · rename_i k hk
-    obtain ⟨ls₁, l, ls₂, e1, e2, _, e4⟩ := firstSyntaxError_some _ _ hk
-    right
-    refine ⟨ls₁, l, ls₂, e1, Or.inr e2, Or.inl ?_⟩
-    simp at h
-    rw [← h.1, e4, Nat.add_comm]
-  · rw [bind_err] at h
-    rcases h with h | ⟨s, hs, h⟩
-    · obtain ⟨ls₁, l, ls₂, s₁, e1, _, e3, e4⟩ := runLines_err ls 1 _ e w' hn (Safe_init w) h
-      right
-      refine ⟨ls₁, l, ls₂, e1, Or.inl e3, ?_⟩
-      rw [Nat.add_comm] at e4
-      exact e4
-    · have hsafe := runLines_safe ls _ _ _ hn (Safe_init w) hs
-      rw [bind_err] at h
-      rcases h with h | ⟨s', hf, h⟩
-      · obtain ⟨s2, h2, _⟩ := flush_safe (c := c) (k := max 1 ls.length) hsafe
-        rw [h2] at h; cases h
-      · left
-        rw [map_err] at h
-        simp only [finalize] at h
-        split at h
-        · simp [raise] at h; exact h.1.symm
-        · cases h
+/-- Which line: whatever is raised while line `k` is visited is the untouched error of a referenced definition, or
+    carries line `k` itself — then `k` holds a statement —, or the line of the attribute statement that was waiting for
+    its doc comment (`P` = what is known about that line). -/
+theorem C17.line_current (P : Nat → Prop) (c : Ctx) (k : Nat) (s : St) (l : Line) (w' : W) (e : Err)
+    (hk : 0 < k) (hl : LInv P s) (h : stepLine c k s l = .error (e, w')) :
+    DepErr c l e ∨ (e = ⟨c.self, some k⟩ ∧ l.stmt.isSome) ∨ (∃ n, e = ⟨c.self, some n⟩ ∧ P n) :=
+  stepLine_err hk hl h
 
-/-- Unconditionally: whatever is raised while line `k` is visited leaves with line `k` and the own path, or is a located
-    error of a referenced definition; a line that is already known is never overwritten. -/
-theorem C17.line_current (c : Ctx) (k : Nat) (s : St) (l : Line) (w' : W) (e : Err)
-    (h : stepLine c k s l = .error (e, w')) : e = ⟨c.self, some k⟩ ∨ DepErr c k l e :=
-  stepLine_err h
+/-- Lazily committed attributes: an error raised while the queued attribute is committed (bad name, bad constant, field
+    after `_offset_` in a union) — at whatever later line that happens — carries the line of the attribute's own
+    statement. -/
+theorem C17.line_commit (P : Nat → Prop) (c : Ctx) (k : Nat) (s : St) (w' : W) (e : Err)
+    (hl : LInv P s) (h : flush c k s = .error (e, w')) :
+    ∃ a bad, s.pending = some (a, bad) ∧ e = ⟨c.self, some a.line⟩ :=
+  flush_err_attr hl h
 
-theorem C17.dependency_line_kept (c : Ctx) (k : Nat) (l : Line) (e : Err) (h : DepErr c k l e) :
-    ∃ e0 : Err, e.file = e0.file ∧ (∀ n, e0.line = some n → e.line = some n) ∧ (e0.line = none → e.line = some k) := by
-  obtain ⟨_, _, e0, _, _, _, he⟩ := h
-  refine ⟨e0, by rw [he], ?_, ?_⟩
-  · intro n hn; rw [he]; simp [hn]
-  · intro hn; rw [he]; simp [hn]
+/-- The path, at any dependency depth: the definition at the reported path fails on its own — reading it raises exactly
+    the reported error, whose line (if any) is the number of one of its own statement lines.  (The alternative is the
+    out-of-range path with which the model reports a reference chain longer than the namespace, i.e. a cycle.) -/
+theorem C17.path (defs : List Def) (ts : List Nat) (w w' : W) (acc : List (Nat × Composite)) (e : Err)
+    (ht : ∀ t ∈ ts, t < defs.length) (h : readTargets defs ts w acc = .error (e, w')) :
+    FailsItself defs e ∨ e = ⟨defs.length, none⟩ :=
+  readTargets_path defs ts w acc e w' ht h
 
 /-- `@print`: a definition without references that is read successfully delivers every `@print` statement exactly once,
     in source order, with its own line and the path the handler is bound to, and nothing else. -/
@@ -88,7 +64,8 @@ theorem C17.print_once_namespace_partial (defs : List Def) (ts : List Nat) (res 
   have := (readTargets_prints defs hd ts W.init [] res w' rfl h).2
   simpa [W.init] using this
 
-/-- is `p` the delivery of a `@print` statement that stands at path `p.file`, line `p.line`? -/
+/-- is `p` the delivery of a `@print` statement that stands at path `p.file`, line `p.line`? (lines without embedded
+    line breaks) -/
 def C17.printAt (defs : List Def) (p : Print) : Bool :=
   match defs[p.file]? with
   | some d => match d.lines[p.line - 1]? with
@@ -103,17 +80,14 @@ def C17.print_once_statement : Prop :=
     readTargets defs ts W.init [] = .ok (res, w') →
     w'.prints.Nodup ∧ ∀ p ∈ w'.prints, C17.printAt defs p = true
 
-/-- Full statement (false): a reported line exists in the reported file. -/
-def C17.dependency_line_statement : Prop :=
-  ∀ (defs : List Def) (ts : List Nat) (e : Err) (w' : W), readTargets defs ts W.init [] = .error (e, w') →
-    ∀ n, e.line = some n → ∃ d, defs[e.file]? = some d ∧ n ≤ d.lines.length
-
 namespace C17.Examples
 def ctx : Ctx := ⟨0, 0, 1, fun w _ => (w, none), false⟩
-def ln (s : Option Stmt) (c : Option String := none) (e : Bool := false) (f : Option Phase := none) (deps : List Nat := []) : Line :=
-  ⟨s, [], deps, false, f, c, e, false⟩
+def ln (s : Option Stmt) (c : Option String := none) (e : Bool := false) (f : Option Phase := none) (deps : List Nat := [])
+    (inner : Nat := 0) : Line :=
+  ⟨s, [], deps, false, f, c, e, false, inner⟩
 def fld (n : String) (f : Option Phase := none) : Line := ln (some (.attr ⟨.field, n, "saturated uint8", ""⟩)) none false f
-def dir (n : String) (e : Option EVal := none) (t : String := "") : Line := ln (some (.directive n e t))
+def dir (n : String) (e : Option EVal := none) (t : String := "") (inner : Nat := 0) : Line :=
+  ln (some (.directive n e t)) none false none [] inner
 /-- `uint8 a`, `uint8 _b_`, `# c1`, `# c2`, ``, ``, `@sealed`, `` -/
 def f5 : List Line := [fld "a", fld "_b_" (some .commit), ln none (some " c1"), ln none (some " c2"), ln none none true, ln none none true, dir "sealed", ln none none true]
 /-- A = ``, `# …`, `# …`, `# …`, `ns.B.1.0 b`, `@sealed`;  B = `uint8 a`, `uint8 a`, `@sealed` -/
@@ -124,38 +98,20 @@ def f6 : List Def :=
 def f7 : List Def :=
   [⟨[ln none none true, ln (some (.attr ⟨.field, "b", "ns.A.1.0", ""⟩)) none false none [1], dir "sealed"], false⟩,
    ⟨[fld "a", ln none none true, dir "print" (some (.rational 1)) "1", dir "sealed"], false⟩]
-/-- `uint8 a`, `int1 x` (line 2, the type constructor raises), `@sealed` -/
-def pre : List Line := [fld "a", fld "x" (some .pre), dir "sealed"]
+/-- `@print 'a⏎b'` (one statement on two physical lines), `@assert false`, `@sealed` -/
+def ml : List Line := [dir "print" (some .other) "'a\\nb'" 1, dir "assert" (some (.boolean false)), dir "sealed"]
 /-- `@print 1`, ``, `@print 2`, `@sealed` -/
 def pr : List Line := [dir "print" (some (.rational 1)) "1", ln none none true, dir "print" (some (.rational 2)) "2", dir "sealed"]
 end C17.Examples
 
 open C17.Examples in
-/-- the invalid attribute of line 2 is reported at line 5, an empty line -/
-theorem C17.line_commit_counterexample : ¬ C17.line_statement := by
-  intro hs
-  have h : errPart (readText ctx f5 W.init) = some (⟨0, some 5⟩, W.init) := by decide
-  cases hr : readText ctx f5 W.init with
-  | ok r => rw [hr] at h; simp [errPart] at h
-  | error e =>
-    rw [hr] at h; simp [errPart] at h
-    have := hs ctx f5 W.init e.2 e.1 (by rw [hr]) (by rw [h]; rfl) 5 (by rw [h])
-    revert this
-    decide
-
-open C17.Examples in
-/-- the duplicate field of B (3 lines) is reported with B's path and line 5 — the referring line of A -/
-theorem C17.dependency_line_counterexample : ¬ C17.dependency_line_statement := by
-  intro hs
-  have h : (match readTargets f6 [0, 1] W.init [] with | .error (e, _) => some e | .ok _ => none) = some ⟨1, some 5⟩ := by decide
-  cases hr : readTargets f6 [0, 1] W.init [] with
-  | ok r => rw [hr] at h; simp at h
-  | error e =>
-    rw [hr] at h; simp at h
-    have := hs f6 [0, 1] e.1 e.2 (by rw [hr]) 5 (by rw [h])
-    rw [h] at this
-    revert this
-    decide
+/-- non-vacuity of `line` / `line_commit`: the invalid attribute of line 2, committed at the empty line 5, is reported at
+    line 2; the failed assertion behind a two-line string literal at line 3; a finalize-time error of a referenced
+    definition with that definition's path and no line -/
+example : errPart (readText ctx f5 W.init) = some (⟨0, some 2⟩, W.init) ∧ culpritLineNos 1 f5 = [1, 2, 7] ∧
+    (errPart (readText ctx ml W.init)).map (·.1) = some ⟨0, some 3⟩ ∧ culpritLineNos 1 ml = [1, 3, 4] ∧
+    (match readTargets f6 [0, 1] W.init [] with | .error (e, _) => some e | .ok _ => none) = some ⟨1, none⟩ := by
+  decide
 
 open C17.Examples in
 /-- the `@print` on line 3 of A is delivered as (A, 3) and again as (B, 3) -/
@@ -169,14 +125,6 @@ theorem C17.print_counterexample : ¬ C17.print_once_statement := by
     have := (hs f7 [1, 0] r.1 r.2 (by rw [hr])).2 ⟨0, 3, "1"⟩ (by rw [h]; simp)
     revert this
     decide
-
-open C17.Examples in
-/-- non-vacuity of `line_partial`: a text without lazy faults that fails at its line 2 with the own path -/
-example : (∀ l ∈ pre, l.noLazy) ∧ errPart (readText ctx pre W.init) = some (⟨0, some 2⟩, W.init) := by
-  refine ⟨?_, by decide⟩
-  intro l hl
-  simp [pre, fld, dir, ln] at hl
-  rcases hl with rfl | rfl | rfl <;> simp [Line.noLazy]
 
 open C17.Examples in
 /-- non-vacuity of `print_once_partial`: an accepted text with two `@print`s, delivered as (path, 1) and (path, 3) -/
